@@ -170,3 +170,24 @@ Example node_example :
   map (fun x => snd (fst x)) (node_run node_init [NONewTerm 5; NONewTerm 3; NONewTerm 5; NOBecomeLeader 5; NONewTerm 5; NORestart; NONewTerm 4; NOBecomeLeader 5])
   = [5; 5; 5; 5; 5; 5; 5; 5].
 Proof. vm_compute. split; reflexivity. Qed.
+
+(* a node swap whose election fails after BecomeLeader (deletingRemovedNodes: DeleteShard of the removed node fails):
+   electLeader returns, the in-memory term stays the issued one, and whatever election comes next (a retry, the next
+   swap) takes a new term.  The transitions exist in the model (ACoordSwap, ACoordElectionFailed from every failing
+   step), so c05_restart_never_reuses covers them; a controller that restored an older copy of its metadata instead
+   (seeded r8) is outside these transitions and is caught by the swapf cases of the coord leg. *)
+Example swap_election_fails_after_become_leader :
+  exists w k, run fixed (init_world (mkCell 5 [1%N; 2%N; 3%N] [] (Some 1%N) SSteady) nodes0)
+      [ ACoordRestart [1%N; 2%N; 3%N]; ACoordSwap 3%N 4%N; ACoordStore;
+        ACoordSendNewTerm 1%N; ACoordSendNewTerm 2%N; ACoordSendNewTerm 4%N; ACoordSendNewTerm 3%N;
+        ANodeNewTerm 1 1%N 6 h13; ACoordRecvNewTermResp 1%N (ROk h13);
+        ANodeNewTerm 1 2%N 6 h13; ACoordRecvNewTermResp 2%N (ROk h13);
+        ANodeNewTerm 1 4%N 6 h13; ACoordRecvNewTermResp 4%N (ROk h13);
+        ANodeNewTerm 1 3%N 6 h13; ACoordRecvNewTermResp 3%N (ROk h13);
+        ACoordDecide 0; ACoordSendBecomeLeader; ANodeBecomeLeader 1 1%N 6 [(2%N, h13); (4%N, h13)];
+        ACoordRecvBecomeLeaderResp true;
+        ACoordElectionFailed;                       (* DeleteShard(3) failed *)
+        ACoordSwap 2%N 5%N ] = Some w /\
+    w_coord w = Some k /\ c_term (k_md k) = 7 /\ c_ens (k_md k) = [1%N; 4%N; 5%N] /\ c_rem (k_md k) = [3%N; 2%N] /\
+    w_wasleader w = [(1%N, 6)].
+Proof. eexists. eexists. split; [vm_compute; reflexivity|]. split; [reflexivity|]. repeat split; reflexivity. Qed.
